@@ -91,9 +91,25 @@ def option_toggle_specs(ctx):
     return specs
 
 
+def small_table_specs(ctx):
+    """Constrained runs (every noise mode) whose evaluation table (`cache_size`) is smaller than the initial design, so that it has to grow
+    while the start point and the initial design are being evaluated; non-identity variable transform; final re-sampling on."""
+    from .. import gen
+    rng = ctx.sub_rng("c02table")
+    specs = []
+    for mode in ("det", "decl", "he", "auto") * (1 if ctx.quick else 5):
+        for ck in ("ball", "halfspace"):
+            sp = gen.make_spec(rng, D=rng.choice([2, 3]), geom=rng.choice(["box", "logbox", "mixedlog"]), mode=mode, cons=ck, opt_loc=rng.choice(["inside", "outside"]), target="quad")
+            sp["cons_scale"] = 1.0
+            sp["options"] = {"n_search": 32, "max_fun_evals": 30 if mode == "det" else 50, "cache_size": rng.choice([1, 2, 3, 5]), "noise_final_samples": 3}
+            specs.append(sp)
+    return specs
+
+
 def run(ctx):
     rep = Report()
     ncon, cstats = construction_cases(ctx, rep)
+    runlevel.with_extra(ctx, "c02table", lambda: small_table_specs(ctx))
     runlevel.with_extra(ctx, "c02coarse", lambda: coarse_specs(ctx))
     runlevel.with_extra(ctx, "c02toggle", lambda: option_toggle_specs(ctx))
     stats, samples = runlevel.pipe_replay(ctx, rep, "C02")
